@@ -55,6 +55,10 @@ def main():
     outp = sys.argv[sys.argv.index("--json") + 1] if "--json" in sys.argv else None
     t0 = time.time()
     fns, consts = parse_mir(open(mir).read())
+    ref_src = open(os.path.join(repo, "antlr/src/reference.rs")).read()
+    vbody = ref_src[ref_src.index("pub enum Val {") + len("pub enum Val {"):]
+    vbody = vbody[:vbody.index("\n}")]
+    val_disc = {"Val::" + nme: k for k, nme in enumerate(re.findall(r"^\s*([A-Z]\w*)\b", vbody, re.M))}
     ops_src = open(os.path.join(repo, "antlr/src/ast/operators.rs")).read()
     ops = dict(re.findall(r"pub const (\w+): &str = \"([^\"]*)\";", ops_src))
     stats = {"scenarios": 0, "paths": 0, "proved": 0, "functions": set()}
@@ -154,6 +158,7 @@ def main():
         e.discriminants = {"Expr::Unspecified": 0, "Expr::Call": 1, "Expr::Comprehension": 2, "Expr::Ident": 3, "Expr::List": 4,
                            "Expr::Literal": 5, "Expr::Map": 6, "Expr::Select": 7, "Expr::Struct": 8,
                            "ControlFlow::Continue": 0, "ControlFlow::Break": 1, "Result::Ok": 0, "Result::Err": 1}
+        e.discriminants.update(val_disc)
         e.ext_const = ext_const
         e.steps = 0
         return e
@@ -165,21 +170,29 @@ def main():
     lit_b = lambda b: I(("enum", "Expr::Literal", [("enum", "Val::Boolean", [b])]))
     lit_i = lambda k: I(("enum", "Expr::Literal", [("enum", "Val::Int", [k])]))
     lst = lambda items: I(("enum", "Expr::List", [[("vec", items)]]))
-    T, P, F = I(("abs_expr", "T")), I(("abs_expr", "P")), I(("abs_expr", "F"))
     X = ident("x")
     R = ident("@result")
     boxed = lambda x: [[x]]
-
-    def comp(init, cond, step, result):
-        return I(("enum", "Expr::Comprehension", [[boxed(T), S("x"), ("None",), S("@result"), boxed(init), boxed(cond), boxed(step), boxed(result)]]))
-    expected = {
-        "all": ([X, P], comp(lit_b(True), call("NOT_STRICTLY_FALSE", [R]), call("LOGICAL_AND", [R, P]), R)),
-        "exists": ([X, P], comp(lit_b(False), call("NOT_STRICTLY_FALSE", [call("LOGICAL_NOT", [R])]), call("LOGICAL_OR", [R, P]), R)),
-        "exists_one": ([X, P], comp(lit_i(0), lit_b(True), call("CONDITIONAL", [P, call("ADD", [R, lit_i(1)]), R]), call("EQUALS", [R, lit_i(1)]))),
-        "map": ([X, P], comp(lst([]), lit_b(True), call("ADD", [R, lst([P])]), R)),
-        "map3": ([X, F, P], comp(lst([]), lit_b(True), call("CONDITIONAL", [F, call("ADD", [R, lst([P])]), R]), R)),
-        "filter": ([X, P], comp(lst([]), lit_b(True), call("CONDITIONAL", [P, call("ADD", [R, lst([X])]), R]), R)),
+    # receiver / body / filter take the shapes an expander could be tempted to look into
+    SHAPES = {
+        "abstract": lambda tag: I(("abs_expr", tag)),
+        "identifier": lambda tag: ident("v_" + tag),
+        "literal true": lambda tag: lit_b(True),
+        "literal false": lambda tag: lit_b(False),
+        "call": lambda tag: I(("enum", "Expr::Call", [[S("f_" + tag), ("None",), ("vec", [ident("a_" + tag)])]])),
     }
+
+    def expectations(T, P, F):
+        def comp(init, cond, step, result):
+            return I(("enum", "Expr::Comprehension", [[boxed(T), S("x"), ("None",), S("@result"), boxed(init), boxed(cond), boxed(step), boxed(result)]]))
+        return {
+            "all": ([X, P], comp(lit_b(True), call("NOT_STRICTLY_FALSE", [R]), call("LOGICAL_AND", [R, P]), R)),
+            "exists": ([X, P], comp(lit_b(False), call("NOT_STRICTLY_FALSE", [call("LOGICAL_NOT", [R])]), call("LOGICAL_OR", [R, P]), R)),
+            "exists_one": ([X, P], comp(lit_i(0), lit_b(True), call("CONDITIONAL", [P, call("ADD", [R, lit_i(1)]), R]), call("EQUALS", [R, lit_i(1)]))),
+            "map": ([X, P], comp(lst([]), lit_b(True), call("ADD", [R, lst([P])]), R)),
+            "map3": ([X, F, P], comp(lst([]), lit_b(True), call("CONDITIONAL", [F, call("ADD", [R, lst([P])]), R]), R)),
+            "filter": ([X, P], comp(lst([]), lit_b(True), call("CONDITIONAL", [P, call("ADD", [R, lst([X])]), R]), R)),
+        }
 
     def raw(x):
         """build engine-side values from the stripped notation"""
@@ -202,7 +215,13 @@ def main():
         return x
 
     try:
-        for name, (args, want) in expected.items():
+        combos = [(t, p_, f_) for t in ("identifier", "call") for p_ in ("identifier", "literal true", "literal false", "call")
+                  for f_ in ("identifier", "literal true", "literal false")]
+        for (ts, ps, fs) in combos:
+          T, P, F = SHAPES[ts]("T"), SHAPES[ps]("P"), SHAPES[fs]("F")
+          for name, (args, want) in expectations(T, P, F).items():
+            if name != "map3" and fs != combos[0][2]:
+                continue   # the filter shape only matters for the three-argument map
             fname = {"map3": "map"}.get(name, name) + "_macro_expander"
             if fname not in fns:
                 raise Unsupported("expander %s not found" % fname)
@@ -215,7 +234,7 @@ def main():
                 try:
                     res = eng.call_fn(fns[fname], [Ref({0: ("helper",)}, 0, ()), ("Some", raw(T)), ("vec", a)])
                 except PanicFound as p:
-                    failures.append({"macro": name, "first_argument_is_identifier": first_is_ident, "problems": ["panic reachable: %s" % p.msg]})
+                    failures.append({"macro": name, "shapes": [ts, ps, fs], "first_argument_is_identifier": first_is_ident, "problems": ["panic reachable: %s" % p.msg]})
                     continue
                 stats["paths"] += 1
                 got = strip(unbox(res))
@@ -228,7 +247,7 @@ def main():
                     if first_is_ident and len(samples) < 6:
                         samples.append({"macro": name, "expansion": json.dumps(got)[:400]})
                 else:
-                    failures.append({"macro": name, "first_argument_is_identifier": first_is_ident,
+                    failures.append({"macro": name, "shapes": [ts, ps, fs], "first_argument_is_identifier": first_is_ident,
                                      "problems": ["expansion differs from the defining comprehension"], "got": json.dumps(got)[:900], "want": json.dumps(want)[:900]})
                 stats["functions"] |= eng.stats["functions"]
         # has(e.f)
@@ -257,7 +276,7 @@ def main():
     except Unsupported as u:
         status = 2
         print("INCONCLUSIVE: unsupported: %s" % u)
-    if failures and status == 0:
+    if failures:  # a counterexample stands even if a later scenario met an unmodelled call (it is replayed natively anyway)
         status = 1
     out = {"functions_encoded": sorted(stats["functions"]), "scenarios": stats["scenarios"], "paths": stats["paths"], "paths_proved": stats["proved"],
            "queries": 0, "solver_s": 0.0, "wall_s": round(time.time() - t0, 2), "failures": failures[:10], "samples": samples}
